@@ -79,6 +79,8 @@ pub struct Compiler {
     scope_index: usize,
     pub filters: Vec<Rc<CompiledFunction>>,
     pub filter_end: Option<Rc<CompiledFunction>>,
+    // first operand that did not fit its instruction encoding, if any
+    encoding_error: Option<CompileError>,
 }
 
 impl Compiler {
@@ -104,6 +106,7 @@ impl Compiler {
             scope_index: 0,
             filters: Vec::new(),
             filter_end: None,
+            encoding_error: None,
         }
     }
 
@@ -218,10 +221,23 @@ impl Compiler {
 
     // Helper to emit instruction and return its starting position
     pub fn emit(&mut self, op: Opcode, operands: &[usize], line: usize) -> usize {
+        self.check_operands(op, operands, line);
         let ins = definitions::make(op, operands, line);
         let pos = self.add_instruction(ins);
         self.set_last_instruction(op, pos);
         pos
+    }
+
+    // An operand that does not fit its encoding (e.g. a constant index or a
+    // jump target above 65535, more than 255 locals) cannot be compiled.
+    // Remember the first one so that compile() can report it.
+    fn check_operands(&mut self, op: Opcode, operands: &[usize], line: usize) {
+        if self.encoding_error.is_none() && !definitions::operands_fit(op, operands) {
+            self.encoding_error = Some(CompileError::new(
+                "program too large: operand does not fit the instruction encoding",
+                line,
+            ));
+        }
     }
 
     fn load_symbol(&mut self, sym: Rc<Symbol>, line: usize) {
@@ -306,6 +322,7 @@ impl Compiler {
     fn change_operand(&mut self, op_pos: usize, operand: usize) {
         let op = Opcode::from(self.get_curr_instructions().code[op_pos]);
         let line = self.get_curr_instructions().lines[op_pos];
+        self.check_operands(op, &[operand], line);
         let new_instruction = definitions::make(op, &[operand], line);
         // lines remain the same
         self.replace_instruction(op_pos, &new_instruction.code);
@@ -321,6 +338,9 @@ impl Compiler {
 
     pub fn compile(&mut self, pgm: Program) -> Result<(), CompileError> {
         self.compile_program(pgm)?;
+        if let Some(err) = self.encoding_error.take() {
+            return Err(err);
+        }
         Ok(())
     }
 
